@@ -66,6 +66,7 @@ class CallState:
         self.sh_at_exit = None     # server h2 letter right after the handler was released
         self.exit_exc = None       # class of the exception leaving request_handler ('BaseException' | 'Exception' | None)
         self.pstream = None        # server protocol.Stream
+        self.cstream = None        # client Stream (for its wrapper's task set)
 
 
 class Run:
@@ -374,6 +375,7 @@ async def client_call(run, channel, c, spec):
     m = cls(channel, '/v.S/' + ('U' if spec['card'] == 'UU' else 'S'), bytes, bytes)
     try:
         async with m.open(timeout=spec.get('deadline'), metadata=[('x-call', str(c))]) as s:
+            st.cstream = s
             await client_steps(run, c, s, spec['client'])
         st.c_result = 'ok'
     except BaseException as e:
@@ -605,6 +607,7 @@ def run_link(case):
         check(run, snapshot(run, env, final=True))
         run.quiet = r
         run.conn_closed = env['cproto'].connection.is_closing()
+        aggregate(run, env['sproto'].handler)
         probe(run, env, channel, lambda: (env['sh2'].update_settings({MCS: 1}),
                                           env['sproto'].connection.flush()))
         try:
@@ -732,6 +735,7 @@ def run_client(case):
         check(run, snapshot(run, env, final=True))
         run.quiet = r
         run.conn_closed = cproto.connection.is_closing()
+        aggregate(run, None)
         probe(run, env, channel, lambda: peer.settings({MCS: 1}))
         run.peer_violations = len(peer.violations)
         try:
@@ -741,6 +745,32 @@ def run_client(case):
         loop.run_quiet(1)
         run.unhandled = len(loop.unhandled)
     return run
+
+
+def aggregate(run, handler):
+    """bookkeeping that must not grow with the number of finished calls (read from outside, after the
+    history): the server Handler's `_tasks` / `_cancelled` (pruned by every 10th accept and by an explicit
+    collect) and the task sets of the per-call wrappers on both sides"""
+    a = {'client_wrappers': [], 'server_wrappers': []}
+    for c, s in enumerate(run.st):
+        w = getattr(s.cstream, '_wrapper', None)
+        if s.exited and w is not None and len(w._tasks):
+            a['client_wrappers'].append(c)
+        w = getattr(s.pstream, 'wrapper', None)
+        if s.released and w is not None and len(w._tasks):
+            a['server_wrappers'].append(c)
+    if handler is not None:
+        entries = list(handler._tasks.values()) + list(handler._cancelled)
+        a.update(accepted=sum(1 for s in run.st if s.accepted),
+                 tasks_before=len(handler._tasks), cancelled_before=len(handler._cancelled),
+                 finished_before=sum(1 for t in entries if t.done()))
+        handler.__gc_collect__()                      # one more GC step
+        a.update(tasks_after=len(handler._tasks), cancelled_after=len(handler._cancelled),
+                 finished_tasks_after=sum(1 for t in handler._tasks.values() if t.done()),
+                 finished_cancelled_after=sum(1 for t in handler._cancelled if t.done()),
+                 unfinished_after=sum(1 for t in list(handler._tasks.values()) + list(handler._cancelled) if not t.done()),
+                 check_closed=handler.check_closed())
+    run.agg = a
 
 
 def probe(run, env, channel, set_limit_1):
